@@ -44,6 +44,15 @@ Proof.
     + apply IH; assumption.
 Qed.
 
+(* rows whose truth is taken from the given assignment; every other row is re-established *)
+Definition kept (f : bexp) : bool :=
+  match f with
+  | FAnd [FGe _ _; FGe _ _] => true
+  | FIff (FVar (VIndep _ _ _ _)) _ => true
+  | FEqI (IVar VPenalty) _ => true
+  | _ => false
+  end.
+
 Section Unplace.
 Variables (ins : instance) (a : asg) (tid snew : Z).
 
@@ -77,12 +86,11 @@ Definition a5 : asg := fun v => match v with VGoal => ieval a4 goal_expr | _ => 
 
 Variable fs : list bexp.
 Hypothesis Hgen : gen_z3 ins = Ok fs.
-Hypothesis Hsat : sat fs a = true.
+(* only the timing rows, the definitions of the independence variables and of the penalty constant are
+   taken from `a` *)
+Hypothesis Hkept : forall g, In g fs -> kept g = true -> feval a g = true.
 Hypothesis Hnodup : NoDup (map zt_id (i_tasks ins)).
-Variable t0 : ztask.
-Hypothesis Ht0 : In t0 (i_tasks ins).
-Hypothesis Htid : zt_id t0 = tid.
-Hypothesis Hnew : snew >= i_now ins /\ snew >= zt_release t0.
+Hypothesis Hnew : forall t, In t (i_tasks ins) -> zt_id t = tid -> snew >= i_now ins /\ snew >= zt_release t.
 
 Lemma truth_placed5 : forall id, truth a5 (VPlaced id) = false.
 Proof. reflexivity. Qed.
@@ -92,12 +100,6 @@ Proof. intros t. unfold worker_bits. change (a5 (VWorker (zt_id t))) with 0. app
 Lemma start5 : forall t, In t (i_tasks ins) -> t_start a5 t = if zt_id t =? tid then snew else t_start a t.
 Proof. reflexivity. Qed.
 
-Lemma same_id : forall t, In t (i_tasks ins) -> zt_id t = tid -> t = t0.
-Proof.
-  intros t Ht He. pose proof (find_task_nodup _ _ Hnodup Ht) as H1. pose proof (find_task_nodup _ _ Hnodup Ht0) as H2.
-  rewrite He in H1. rewrite Htid in H2. congruence.
-Qed.
-
 (* ---- per-task rows *)
 Lemma task_rows_sat5 : forall t rows f, In t (i_tasks ins) -> task_rows ins t = Ok rows -> In f rows -> feval a5 f = true.
 Proof.
@@ -106,11 +108,11 @@ Proof.
   - destruct Hf as [<-|[<-|[<-|Hf]]].
     + (* timing *)
       assert (Hold : feval a (timing (ops ins) t (i_now ins)) = true).
-      { eapply sat_in; [exact Hsat|]. eapply task_rows_in; eauto. now left. }
+      { apply Hkept; [|reflexivity]. eapply task_rows_in; eauto. now left. }
       apply timing_sem in Hold. unfold timing. cbn [o_and o_ge o_start_time o_const o_release_us ops feval ieval].
       change (a5 (VStart (zt_id t))) with (if zt_id t =? tid then snew else a (VStart (zt_id t))).
       unfold t_start in Hold. destruct (zt_id t =? tid) eqn:E.
-      * apply Z.eqb_eq in E. rewrite (same_id t Ht E). lia.
+      * apply Z.eqb_eq in E. pose proof (Hnew t Ht E). lia.
       * lia.
     + (* one-hot: the all-zero vector is the last alternative *)
       unfold one_hot. cbn [o_or o_placed_on_worker ops]. rewrite feval_or. apply existsb_exists.
@@ -150,7 +152,7 @@ Lemma remof_task : forall t, In t (i_tasks ins) -> remof (zt_id t) = zt_remainin
 Proof. intros t Ht. unfold remof. rewrite (find_task_nodup _ _ Hnodup Ht). reflexivity. Qed.
 
 Lemma pair_rows_sat5 : forall idx w p rows f, In p (pairs ins) -> pair_rows ins idx w p = Ok rows ->
-  (forall g, In g rows -> feval a g = true) -> In f rows -> feval a5 f = true.
+  (forall g, In g rows -> kept g = true -> feval a g = true) -> In f rows -> feval a5 f = true.
 Proof.
   intros idx w [t1 t2] rows f Hp Hr Hold Hf. unfold pair_rows in Hr. cbn [fst snd] in Hr.
   destruct (sequence _) as [irows|c] eqn:Eseq; cbn [bind] in Hr; [|discriminate]. inversion Hr; subst rows; clear Hr.
@@ -179,7 +181,7 @@ Proof.
       assert (Hf' := Hf). apply (sequence_inv _ _ _ _ Eseq) in Hf. apply in_map_iff in Hf. destruct Hf as ([r q] & Hrow & _).
       cbn [fst snd] in Hrow. unfold indep_row in Hrow. destruct (rsize ins r) as [size|]; [|discriminate].
       destruct ((0 <? q) && (q <=? size)); [|discriminate]. inversion Hrow; subst f.
-      assert (Ho := Hold _ (or_intror (or_intror (or_intror (in_or_app _ _ _ (or_introl Hf')))))).
+      assert (Ho := Hold _ (or_intror (or_intror (or_intror (in_or_app _ _ _ (or_introl Hf'))))) eq_refl).
       exact Ho.
     + change (feval a5 (FImp ?x ?y)) with (implb (feval a5 x) (feval a5 y)). rewrite feval_and. cbn [forallb feval].
       rewrite truth_placed5. reflexivity.
@@ -199,10 +201,11 @@ Proof.
   generalize (t :: l). intros l0. induction l0 as [|x l0 IH]; [reflexivity|]. cbn [map fold_right]. rewrite IH. reflexivity.
 Qed.
 
-Lemma objective_sat5 : forall f, In f (objective_rows ins) -> (forall g, In g (objective_rows ins) -> feval a g = true) -> feval a5 f = true.
+Lemma objective_sat5 : forall f, In f (objective_rows ins) ->
+  (forall g, In g (objective_rows ins) -> kept g = true -> feval a g = true) -> feval a5 f = true.
 Proof.
   intros f Hf Hold. unfold objective_rows in Hf. apply in_app_or in Hf. destruct Hf as [[<-|[]]|Hf].
-  - exact (Hold _ (or_introl eq_refl)).
+  - exact (Hold _ (or_introl eq_refl) eq_refl).
   - apply in_app_or in Hf. destruct Hf as [Hf|[<-|[]]].
     + apply in_flat_map in Hf. destruct Hf as (g & _ & Hf). unfold slack_row in Hf.
       destruct (filter (fun t => zt_graph t =? g) (i_tasks ins)) as [|t l] eqn:El; [contradiction|]. destruct Hf as [<-|[]].
@@ -213,11 +216,11 @@ Proof.
 Qed.
 
 (* ---- the whole system *)
-Theorem unplaced_sat : sat fs a5 = true.
+Theorem unplaced_sat_gen : sat fs a5 = true.
 Proof.
   destruct (gen_z3_parts _ _ Hgen) as (tr & er & Htr & Her & Hfs).
   unfold sat. apply forallb_forall. intros f Hf. rewrite Hfs in Hf.
-  assert (Hall : forall g, In g fs -> feval a g = true) by (intros g Hg; eapply sat_in; eauto).
+  assert (Hall : forall g, In g fs -> kept g = true -> feval a g = true) by exact Hkept.
   apply in_app_or in Hf. destruct Hf as [Hf|Hf].
   - destruct (concat_results_inv _ _ _ _ Htr Hf) as (r & rows & Hr & He & Hin).
     apply in_map_iff in Hr. destruct Hr as (t & <- & Ht). eapply task_rows_sat5; eauto.
@@ -228,14 +231,25 @@ Proof.
     + apply in_app_or in Hf. destruct Hf as [Hf|Hf].
       * unfold exclusivity_rows in Her. destruct (concat_results_inv _ _ _ _ Her Hf) as (r & rows & Hr & He & Hin).
         apply in_flat_map in Hr. destruct Hr as ([idx w] & Hiw & Hr). apply in_map_iff in Hr. destruct Hr as (p & <- & Hp).
-        cbn [fst snd] in He. eapply pair_rows_sat5; eauto. intros g Hg. apply Hall. rewrite Hfs.
+        cbn [fst snd] in He. eapply pair_rows_sat5; eauto. intros g Hg Hk. apply Hall; [|exact Hk]. rewrite Hfs.
         apply in_or_app; right. apply in_or_app; right. apply in_or_app; left.
         eapply concat_results_in; [exact Her| |exact He|exact Hg].
         apply in_flat_map. exists (idx, w). split; [exact Hiw|]. apply in_map_iff. exists p. split; [reflexivity|exact Hp].
-      * apply objective_sat5; [exact Hf|]. intros g Hg. apply Hall. rewrite Hfs.
+      * apply objective_sat5; [exact Hf|]. intros g Hg Hk. apply Hall; [|exact Hk]. rewrite Hfs.
         apply in_or_app; right. apply in_or_app; right. apply in_or_app; right. exact Hg.
 Qed.
 End Unplace.
+
+Theorem unplaced_sat : forall ins a tid snew fs, gen_z3 ins = Ok fs -> sat fs a = true ->
+  NoDup (map zt_id (i_tasks ins)) -> forall t0, In t0 (i_tasks ins) -> zt_id t0 = tid ->
+  snew >= i_now ins /\ snew >= zt_release t0 -> sat fs (a5 ins a tid snew) = true.
+Proof.
+  intros ins a tid snew fs Hg Hs Hnd t0 Ht0 Htid Hnew. apply unplaced_sat_gen; try assumption.
+  - intros g Hg' _. eapply sat_in; eauto.
+  - intros t Ht He. assert (t = t0).
+    { pose proof (find_task_nodup _ _ Hnd Ht) as H1. pose proof (find_task_nodup _ _ Hnd Ht0) as H2. rewrite He in H1. rewrite Htid in H2. congruence. }
+    subst. exact Hnew.
+Qed.
 
 (* ---------------------------------------------------------------- soft rows under enforce_deadlines *)
 Definition pen (ins : instance) (b : asg) (t : ztask) : Z :=
@@ -333,4 +347,87 @@ Proof.
   - split; [|vm_compute; reflexivity]. split; [vm_compute; reflexivity|].
     intros a' _. replace (soft_penalty ex_chain ex_chain_asg) with 0 by (vm_compute; reflexivity).
     apply soft_penalty_nonneg. reflexivity.
+Qed.
+
+(* ---------------------------------------------------------------- the asserted system is always satisfiable *)
+(* every task un-placed, starting at the earliest time its timing row allows, no slot taken *)
+Definition a0 (ins : instance) : asg := fun v =>
+  match v with
+  | VStart id => match find_task (i_tasks ins) id with
+                 | Some t => Z.max (i_now ins) (zt_release t)
+                 | None => i_now ins
+                 end
+  | VPenalty => TASK_SKIP_PENALTY
+  | _ => 0
+  end.
+
+Lemma resource_rows_not_kept : forall ins t idx w rws f, resource_rows ins t idx w = Ok rws -> In f rws -> kept f = false.
+Proof.
+  intros ins t idx w rws f Hre Hf. unfold resource_rows in Hre. destruct (can_be_placed w t).
+  - revert rws Hre Hf. induction (rtypes t) as [|r0 l IH]; intros rws Hre Hf.
+    + cbn in Hre. inversion Hre; subst. contradiction.
+    + cbn [fold_right] in Hre. destruct (fold_right _ (Ok []) l) as [rows0|c] eqn:Ef; cbn [bind] in Hre; [|discriminate].
+      destruct (rsize ins r0) as [size|]; [|discriminate]. destruct (req w t r0) as [need|]; [|discriminate].
+      inversion Hre; subst rws; clear Hre. destruct Hf as [<-|Hf]; [reflexivity|eapply IH; eauto].
+  - inversion Hre; subst rws. destruct Hf as [<-|[]]. reflexivity.
+Qed.
+
+Lemma kept_a0 : forall ins fs, gen_z3 ins = Ok fs -> NoDup (map zt_id (i_tasks ins)) ->
+  forall g, In g fs -> kept g = true -> feval (a0 ins) g = true.
+Proof.
+  intros ins fs Hg Hnd g Hin Hk. destruct (gen_z3_parts _ _ Hg) as (tr & er & Htr & Her & Hfs). rewrite Hfs in Hin.
+  apply in_app_or in Hin. destruct Hin as [Hin|Hin].
+  - destruct (concat_results_inv _ _ _ _ Htr Hin) as (r & rows & Hr & He & Hf).
+    apply in_map_iff in Hr. destruct Hr as (t & <- & Ht).
+    destruct (task_rows_shape _ _ _ He) as [(Hn & Hc & rr & Hrr & ->)|(Hn & Hc & ->)].
+    + destruct Hf as [<-|[<-|[<-|Hf]]].
+      * unfold timing. cbn [o_and o_ge o_start_time o_const o_release_us ops feval ieval].
+        change (a0 ins (VStart (zt_id t))) with
+          (match find_task (i_tasks ins) (zt_id t) with Some t' => Z.max (i_now ins) (zt_release t') | None => i_now ins end).
+        rewrite (find_task_nodup _ _ Hnd Ht). lia.
+      * unfold one_hot in Hk. cbn [o_or ops kept] in Hk. discriminate.
+      * unfold placed_iff in Hk. cbn [o_iff o_is_placed ops kept] in Hk. discriminate.
+      * destruct (concat_results_inv _ _ _ _ Hrr Hf) as (r & rws & Hrin & Hre & Hfin).
+        apply in_map_iff in Hrin. destruct Hrin as ([idx w] & <- & _). cbn [fst snd] in Hre.
+        rewrite (resource_rows_not_kept _ _ _ _ _ _ Hre Hfin) in Hk. discriminate.
+    + destruct Hf as [<-|[]]. cbn [kept] in Hk. discriminate.
+  - apply in_app_or in Hin. destruct Hin as [Hin|Hin].
+    + apply in_flat_map in Hin. destruct Hin as (t & _ & Hf). cbn [dependency_rows] in Hf.
+      destruct Hf as [<-|[<-|[]]]; unfold dep_placed, dep_start in Hk; cbn [o_implies ops kept] in Hk; discriminate.
+    + apply in_app_or in Hin. destruct Hin as [Hin|Hin].
+      * unfold exclusivity_rows in Her. destruct (concat_results_inv _ _ _ _ Her Hin) as (r & rows & Hr & He & Hf).
+        apply in_flat_map in Hr. destruct Hr as ([idx w] & _ & Hr). apply in_map_iff in Hr. destruct Hr as ([t1 t2] & <- & _).
+        unfold pair_rows in He. cbn [fst snd] in He.
+        destruct (sequence _) as [irows|c] eqn:Eseq; cbn [bind] in He; [|discriminate]. inversion He; subst rows; clear He.
+        destruct Hf as [<-|[<-|[<-|Hf]]]; try (unfold ends_before in Hk; cbn [kept] in Hk; discriminate).
+        apply in_app_or in Hf. destruct Hf as [Hf|[<-|[]]]; [|cbn [kept] in Hk; discriminate].
+        apply (sequence_inv _ _ _ _ Eseq) in Hf. apply in_map_iff in Hf. destruct Hf as ([r q] & Hrow & _).
+        cbn [fst snd] in Hrow. unfold indep_row in Hrow. destruct (rsize ins r) as [size|]; [|discriminate].
+        destruct ((0 <? q) && (q <=? size)) eqn:Eq; [|discriminate]. inversion Hrow; subst g.
+        cbn [feval bveval]. change (truth (a0 ins) (VIndep (zw_name w) r (zt_id t1) (zt_id t2))) with false.
+        change (a0 ins (VRes (zt_id t1) r)) with 0. change (a0 ins (VRes (zt_id t2) r)) with 0.
+        rewrite !Zmod_0_l. cbn [Z.lxor].
+        rewrite (Z.mod_small (2 ^ q - 1)) by (pose proof (pow2_pos q ltac:(lia)); lia).
+        assert (2 ^ q >= 2).
+        { replace q with (Z.succ (q - 1)) by lia. rewrite Z.pow_succ_r by lia. pose proof (pow2_pos (q - 1) ltac:(lia)). lia. }
+        replace (0 =? 2 ^ q - 1) with false by lia. reflexivity.
+      * unfold objective_rows in Hin. apply in_app_or in Hin. destruct Hin as [[<-|[]]|Hin].
+        -- cbn [feval ieval]. change (a0 ins VPenalty) with TASK_SKIP_PENALTY. apply Z.eqb_refl.
+        -- apply in_app_or in Hin. destruct Hin as [Hin|[<-|[]]]; [|cbn [kept] in Hk; discriminate].
+           apply in_flat_map in Hin. destruct Hin as (gr & _ & Hf). unfold slack_row in Hf.
+           destruct (filter (fun t => zt_graph t =? gr) (i_tasks ins)) as [|t l]; [contradiction|]. destruct Hf as [<-|[]].
+           cbn [kept] in Hk. discriminate.
+Qed.
+
+(* whenever building the system does not raise, it has a model (everything un-placed): optimizer.check()
+   cannot answer unsat, and every theorem about `sat` has its hypothesis satisfiable on every such instance *)
+Theorem z3_always_feasible : forall ins fs, gen_z3 ins = Ok fs -> NoDup (map zt_id (i_tasks ins)) ->
+  exists a, sat fs a = true /\ forall t, In t (i_tasks ins) -> truth a (VPlaced (zt_id t)) = false.
+Proof.
+  intros ins fs Hg Hnd. exists (a5 ins (a0 ins) 0 (a0 ins (VStart 0))). split; [|reflexivity].
+  apply unplaced_sat_gen; try assumption.
+  - apply kept_a0; assumption.
+  - intros t Ht He.
+    change (a0 ins (VStart 0)) with (match find_task (i_tasks ins) 0 with Some t' => Z.max (i_now ins) (zt_release t') | None => i_now ins end).
+    rewrite <- He, (find_task_nodup _ _ Hnd Ht). lia.
 Qed.
